@@ -96,6 +96,9 @@ func c13Stack(r *eng.Run) {
 	var msgs []c13Msg
 	for i := 0; i < nmsg; i++ {
 		m := c13Msg{compressed: r.T.Int(sim.LCfg, 3) != 0, op: ref.OpBinary}
+		if r.T.Bool(sim.LOp) {
+			m.op = ref.OpText // only written with ResetOp; otherwise the writer's own opcode applies
+		}
 		n := []int{0, 1, 10, 100, 700, 5000}[r.T.Int(sim.LLen, 6)]
 		if bytewise {
 			n = 300 + r.T.Int(sim.LLen, 500)
@@ -108,6 +111,22 @@ func c13Stack(r *eng.Run) {
 	var sms wsflate.MessageState
 	ww := wsutil.NewWriterSize(wire, wst, ws.OpBinary, size)
 	ww.SetExtensions(&sms)
+	if r.T.Chance(sim.LHist, 1, 6) {
+		// An earlier life of the same writer: a compressed message that was
+		// given up after a fragment had gone out (to another destination),
+		// then Reset, which detaches the extensions; they are attached again.
+		old := NewPipe(r, nil)
+		ww.Reset(old, wst, ws.OpBinary)
+		ww.SetExtensions(&sms)
+		sms.SetCompressed(true)
+		ww.Write(patBytes(77, 0, 1+r.T.Int(sim.LLen, 2*size+2)))
+		ww.FlushFragment()
+		ww.Write(patBytes(78, 0, r.T.Int(sim.LLen, size+1)))
+		ww.Reset(wire, wst, ws.OpBinary)
+		ww.SetExtensions(&sms)
+		r.Probe("writer_reset_after_abandoned_fragmented_message")
+	}
+	resetOp := r.T.Chance(sim.LHist, 1, 3) // the application announces every message with ResetOp (keeps extensions, as documented)
 	fw := wsflate.NewWriter(nil, flateCtor(level))
 	type ctrlAt struct {
 		afterFrames int
@@ -127,6 +146,10 @@ func c13Stack(r *eng.Run) {
 		pings = append(pings, pl)
 	}
 	for _, m := range msgs {
+		if resetOp {
+			ww.ResetOp(ws.OpCode(m.op))
+			r.Probe("message_announced_with_ResetOp")
+		}
 		sms.SetCompressed(m.compressed)
 		var dst io.Writer = ww
 		if m.compressed {
@@ -193,6 +216,13 @@ func c13Stack(r *eng.Run) {
 			}
 			if f.Rsv&3 != 0 {
 				r.Failf("rsv23_set", "frame %d has rsv=%d", i, f.Rsv)
+			}
+			wantOp := byte(ref.OpBinary)
+			if resetOp && mi < len(msgs) {
+				wantOp = msgs[mi].op
+			}
+			if f.Op != wantOp {
+				r.Failf("wrong_opcode_on_first_frame", "message %d starts with %s, expected opcode %d", mi, frameStr(f), wantOp)
 			}
 		} else if f.Rsv != 0 {
 			r.Failf("rsv1_on_continuation", "frame %d (%s) of message %d is a continuation with RSV bits", i, frameStr(f), mi)
@@ -443,8 +473,20 @@ func c13Scripted(r *eng.Run) {
 		idx++
 		// Read the unit to its end; continuation / intermediate frames are
 		// parsed inside Read.
+		// ... or skipped with Discard, which parses the same frames.
+		discard := r.T.Chance(sim.LAct, 1, 3)
+		if discard {
+			r.Probe("scripted_unit_discarded")
+		}
 		for {
-			_, err := rd.Read(buf)
+			var err error
+			if discard {
+				if err = rd.Discard(); err == nil {
+					break
+				}
+			} else {
+				_, err = rd.Read(buf)
+			}
 			if err == io.EOF {
 				break
 			}
